@@ -328,7 +328,7 @@ def compare_view(sim, who, lib_client, model, scopes, stack, devname, truth, vio
             viol.append({"clause": "C01.missing", "detail": f"{ctx}: enabled {tv['kind']} vector {vname} not in the mirror (mirror has {sorted(mirror_vecs)})",
                          "facts": dict(facts, kind=tv["kind"])})
             return
-    for vname in mirror_vecs:
+    for vname in (dev.list_vectors() if dev else ()):  # (the mirror's own order: deterministic, unlike a set of names)
         tv = truth["vectors"].get(vname)
         if tv is None or not tv["enabled"]:
             viol.append({"clause": "C01.ghost", "detail": f"{ctx}: mirror shows vector {vname} which the driver does not currently expose", "facts": facts})
